@@ -664,30 +664,39 @@ theorem childReports_clean (path : Path) (gen : Nat) : ∀ (cs : List Child) (i 
       · exact hc
       · exact h3 c' hc'
 
-/-- the source under check raises on a failed child report (translator fact; false for the code before f1fcb9a). -/
-theorem genRaises_fact : genRaisesOnFailedChild = true := by decide
+theorem clashesExisting_false : ∀ (rs : List Report) (seen : List TKey), clashesExisting seen rs = false →
+    (rs.filterMap Report.key).Nodup ∧ ∀ k ∈ rs.filterMap Report.key, k ∉ seen := by
+  intro rs
+  induction rs with
+  | nil => intro seen _; simp
+  | cons r rest ih =>
+    intro seen h
+    cases r with
+    | fail =>
+      simp only [clashesExisting] at h
+      have := ih seen h
+      simp only [List.filterMap_cons, Report.key]
+      exact this
+    | succ p b o =>
+      simp only [clashesExisting, Bool.or_eq_false_iff] at h
+      obtain ⟨h1, h2⟩ := ih ((p, b) :: seen) h.2
+      simp only [List.filterMap_cons, Report.key]
+      refine ⟨List.nodup_cons.2 ⟨fun hm => h2 _ hm (by simp), h1⟩, ?_⟩
+      intro k hk
+      rcases List.mem_cons.1 hk with rfl | hk
+      · simpa using h.1
+      · exact fun hks => h2 k hk (List.mem_cons_of_mem _ hks)
 
-/-- **C13_generated_total** (true since fix f1fcb9a, F35). Whatever children a task generator defines while it runs:
-either the generator fails (so the build does not end with exit code 0), or every child — none of them
-uncollectable — is collected, in order, exactly once; no generated task is silently dropped. -/
-theorem C13_generated_total (path : Path) (gen : Nat) (cs : List Child) :
-    generatorCollect genRaisesOnFailedChild (childReports path gen 0 cs) = none ∨
-    (generatorCollect genRaisesOnFailedChild (childReports path gen 0 cs) = some (childReports path gen 0 cs) ∧
-      (childReports path gen 0 cs).length = cs.length ∧ ∀ c ∈ cs, c.uncollectable = false) := by
-  unfold generatorCollect
-  rw [genRaises_fact]
-  cases h : (childReports path gen 0 cs).any Report.isFail with
-  | true => left; simp
-  | false =>
-    right
-    obtain ⟨h1, h2, h3⟩ := childReports_clean path gen cs 0 h
-    exact ⟨by simp [h1], h2, h3⟩
-
-/-- Without the raise (the code before f1fcb9a) an uncollectable child vanishes: F35 in the model. -/
-example : generatorCollect false (childReports ["r", "task_m.py"] 1 0 [{ name := "a", tag := 1 }, { name := "b", tag := 2, uncollectable := true }])
+/-- Without the raises (the code before the fixes) an uncollectable child vanishes (F35) and a child named like an
+existing task is merged with it (F39); with them the generator fails. -/
+example : generatorCollect false false [] (childReports ["r", "task_m.py"] 1 0 [{ name := "a", tag := 1 }, { name := "b", tag := 2, uncollectable := true }])
     = some [Report.succ ["r", "task_m.py"] "a" (1, 0)] ∧
-    generatorCollect true (childReports ["r", "task_m.py"] 1 0 [{ name := "a", tag := 1 }, { name := "b", tag := 2, uncollectable := true }]) = none := by
-  constructor <;> rfl
+    generatorCollect true true [] (childReports ["r", "task_m.py"] 1 0 [{ name := "a", tag := 1 }, { name := "b", tag := 2, uncollectable := true }]) = none ∧
+    generatorCollect true false [(["r", "task_m.py"], "task_x")] (childReports ["r", "task_m.py"] 1 0 [{ name := "task_x", tag := 1 }])
+      = some [Report.succ ["r", "task_m.py"] "task_x" (1, 0)] ∧
+    generatorCollect true true [(["r", "task_m.py"], "task_x")] (childReports ["r", "task_m.py"] 1 0 [{ name := "task_x", tag := 1 }]) = none ∧
+    generatorCollect true true [] (childReports ["r", "task_m.py"] 1 0 [{ name := "y", tag := 1 }, { name := "y", tag := 2 }]) = none := by
+  refine ⟨rfl, rfl, rfl, rfl, rfl⟩
 
 /-- Non-vacuity: a helper module's `@task` function is left over → exit 3; a duplicate id → exit 3. -/
 def leftEnv : Env :=
